@@ -20,6 +20,11 @@ Faults == <<
   <<"range", "shift", "slli x5, x5, 32">>,
   <<"range", "compressed", "c.addi x8, 40">>,
   <<"range", "upper", "lui x5, 1048576">>,
+  <<"range", "align-zero", "align 0">>,
+  <<"range", "align-negative", "align -4">>,
+  <<"malformed", "pack-format", "pack <Z 5">>,
+  <<"malformed", "pack-no-value", "pack <I">>,
+  <<"noninteger", "align", "align four">>,
   <<"register", "plain", "addi x5, q7, 1">>,
   <<"register", "plain-c", "add x8, x8, q9">>,
   <<"register", "pseudo", "mv x5, q7">>,
